@@ -166,6 +166,14 @@ func runC12Flow(rep *TReport, raw json.RawMessage) {
 				"kid-1": {Key: &jose.JSONWebKey{Key: k2.Public(), Algorithm: "RS256", Use: "sig", KeyID: "kid-1"}, Scopes: []string{reg}}}}}}
 		client.Scopes = []string{"unrelated"} // the signing key's registration decides, not the client's
 		o = w.doJWTBearer(1, BearerSpec{Iss: "issuer-1", Sub: "subject-1", Kid: "kid-1", Scopes: scopes, JTI: "jti-1"})
+	case "jwt_bearer_client":
+		_, _, k2 := Keys()
+		w.Mem.IssuerPublicKeys["issuer-1"] = storage.IssuerPublicKeys{Issuer: "issuer-1", KeysBySub: map[string]storage.SubjectPublicKeys{
+			"subject-1": {Subject: "subject-1", Keys: map[string]storage.PublicKeyScopes{
+				"kid-1": {Key: &jose.JSONWebKey{Key: k2.Public(), Algorithm: "RS256", Use: "sig", KeyID: "kid-1"}, Scopes: []string{reg}}}}}}
+		w.Config.GrantTypeJWTBearerCanSkipClientAuth = false
+		client.Scopes = []string{req} // the presenting client itself may have the scope: that must not help
+		o = w.doJWTBearer(1, BearerSpec{Iss: "issuer-1", Sub: "subject-1", Kid: "kid-1", Scopes: scopes, JTI: "jti-1", Client: "A"})
 	}
 	ok := o.Res == "ok"
 	rep.cmp(raw, "accepted", r.Accept, ok, false)
@@ -177,7 +185,7 @@ func runC12Flow(rep *TReport, raw json.RawMessage) {
 		for _, ts := range append(at, rt...) {
 			if scopeDim {
 				rep.cmp(raw, "token_scopes", strings.Join(scopes, " "), strings.Join(ts.Scopes, " "), false)
-			} else if r.Flow != "jwt_bearer" {
+			} else if r.Flow != "jwt_bearer" && r.Flow != "jwt_bearer_client" {
 				rep.cmp(raw, "token_aud", strings.Join(aud, " "), strings.Join(ts.Aud, " "), false)
 			}
 		}
